@@ -239,6 +239,9 @@ class Histogram1D(ObjectWithBinning, HistogramBase):
             index = int(index)
         if isinstance(index, int):
             return self.bins[index], self.frequencies[index]
+        if isinstance(index, list):
+            # A list of indices (or of booleans) means the same as the array
+            index = np.asarray(index)
         if isinstance(index, np.ndarray):
             if index.dtype == bool:
                 if index.shape != (self.bin_count,):
